@@ -1,12 +1,16 @@
 (* C20 — the emitted equations hold for genuine rules.
 
-   Genuineness is stated on the term tables (Python: Counter parameters -> count)
-   POSITIONALLY, the way get_terms re-keys them: an entry (c_1..c_k) of child i
-   contributes to the parent entry whose q-th component is the value of the child
-   parameter that extra_parameters[i] maps the q-th parent parameter to (0 if it is
-   not mapped).  The theorems turn this into the identity between generating
-   series that the emitted expression denotes, where the re-keying is done by
-   SUBSTITUTING variables.                                                     *)
+   For UNION rules genuineness is stated on the term tables (Python: Counter
+   parameters -> count) POSITIONALLY, the way get_terms re-keys them: an entry
+   (c_1..c_k) of child i contributes to the parent entry whose q-th component is the
+   value of the child parameter that extra_parameters[i] maps the q-th parent
+   parameter to (0 if it is not mapped; a child parameter nobody is mapped to is
+   summed out).  For PRODUCT rules it is stated on series coefficients
+   (product_genuine, Count/EquationsRules.v).  The theorems turn the re-keying into
+   the identity between generating series that the emitted expression denotes, where
+   the re-keying is done by SUBSTITUTING variables.  A child parameter nobody is
+   mapped to keeps its own variable in the emitted expression: harmless exactly when
+   it is 0 on every object of the child (cw_cover, second alternative).        *)
 From Coq Require Import ZArith List Bool Lia.
 From CSS Require Import Count.Series Count.Equations.
 Import ListNotations.
@@ -251,18 +255,27 @@ Record child_wf (ppars : list Z) (pars : Z -> list Z) (k : Z * list (Z * Z)) : P
   cw_keys : NoDup (map fst (snd k));                       (* a dict *)
   cw_dom : incl (map fst (snd k)) ppars;                   (* keys are parent parameters *)
   cw_ran : incl (map snd (snd k)) (pars (fst k));          (* values are child parameters *)
-  cw_cover : forall cv, In cv (pars (fst k)) -> has_par (snd k) cv = true;
-                                                           (* every child parameter is mapped to *)
+  cw_cover : forall cv, In cv (pars (fst k)) ->
+             has_par (snd k) cv = true \/
+             (forall t n c, In t (S (fst k)) -> fst t = n :: c -> aget (combine (pars (fst k)) c) cv = 0);
+                                                           (* every child parameter is mapped to, or is 0 on
+                                                              every object of the child (the variable then
+                                                              stays free in the equation, harmlessly) *)
   cw_nodup : NoDup (pars (fst k));
   cw_x : ~ In 0 (pars (fst k));
   cw_tab : forall t, In t (S (fst k)) ->
            exists n c, fst t = n :: c /\ length c = length (pars (fst k))
 }.
 
+(* what the substituted argument list of a child denotes: a mapped child variable becomes the
+   product of its parent variables, an unmapped one stays itself *)
+Definition arg_ok (ep : list (Z * Z)) (m : mono) (cv : Z) : Prop :=
+  if has_par ep cv then forall u, m u = par_count ep cv u else m = mvar cv.
+
 Lemma child_args ppars pars k :
   child_wf ppars pars k ->
   exists ms, amonos (map (subs (union_subs (snd k))) (Var 0 :: map Var (pars (fst k)))) = Some (mvar 0 :: ms) /\
-             Forall2 (fun (m : mono) cv => forall u, m u = par_count (snd k) cv u) ms (pars (fst k)).
+             Forall2 (arg_ok (snd k)) ms (pars (fst k)).
 Proof.
   intros W. destruct k as [c ep]. simpl in *.
   pose proof (good_union_subs ep) as G.
@@ -271,33 +284,56 @@ Proof.
     destruct G0 as [Hp _]. exfalso. apply (cw_x _ _ _ W). apply (cw_ran _ _ _ W). simpl.
     unfold has_par in Hp. apply existsb_exists in Hp. destruct Hp as [[q c'] [Hin Hc]]. simpl in Hc.
     apply Z.eqb_eq in Hc. subst. apply in_map_iff. exists (q, 0). auto. }
-  assert (forall l, incl l (pars c) ->
-            exists ms, amonos (map (subs (union_subs ep)) (map Var l)) = Some ms /\
-                       Forall2 (fun (m : mono) cv => forall u, m u = par_count ep cv u) ms l) as A.
-  { induction l as [|cv t IH]; intros Hl.
+  assert (forall l, exists ms, amonos (map (subs (union_subs ep)) (map Var l)) = Some ms /\
+                       Forall2 (arg_ok ep) ms l) as A.
+  { induction l as [|cv t IH].
     - exists []. split; [reflexivity|constructor].
-    - destruct IH as [ms [Hms HF]]; [intros z Hz; apply Hl; right; auto|].
-      pose proof (G cv) as Gcv. pose proof (cw_cover _ _ _ W cv (Hl cv (or_introl eq_refl))) as Hc.
-      simpl in Hc. simpl. destruct (alookup cv (union_subs ep)) as [e|].
-      + destruct Gcv as [_ [f [Hf Hfu]]]. exists (f :: ms). rewrite Hf, Hms. split; auto.
-      + congruence. }
-  destruct (A (pars c) (incl_refl _)) as [ms [Hms HF]].
+    - destruct IH as [ms [Hms HF]].
+      pose proof (G cv) as Gcv. unfold arg_ok.
+      simpl. destruct (alookup cv (union_subs ep)) as [e|].
+      + destruct Gcv as [Hc [f [Hf Hfu]]]. exists (f :: ms). rewrite Hf, Hms. split; auto.
+        constructor; auto. rewrite Hc. exact Hfu.
+      + exists (mvar cv :: ms). simpl. rewrite Hms. split; auto.
+        constructor; auto. rewrite Gcv. reflexivity. }
+  destruct (A (pars c)) as [ms [Hms HF]].
   exists ms. split; auto. simpl. rewrite E0. simpl. simpl in Hms. rewrite Hms. reflexivity.
+Qed.
+
+(* replacing the argument monomials by the parent-count monomials changes nothing on an entry whose
+   unmapped components are 0 *)
+Lemma lincomb_args ep u : forall ps c ms,
+  NoDup ps -> length c = length ps -> Forall2 (arg_ok ep) ms ps ->
+  (forall cv, In cv ps -> has_par ep cv = false -> aget (combine ps c) cv = 0) ->
+  lincomb c ms u = lincomb c (map (fun cv => (fun w => par_count ep cv w) : mono) ps) u.
+Proof.
+  intros ps c ms ND Hl HF. revert c ND Hl.
+  induction HF as [|m cv ms' ps' Hm _ IH]; intros c ND Hl Hz.
+  - destruct c; reflexivity.
+  - destruct c as [|x c']; [discriminate|]. inversion ND as [|? ? Hnot ND']; subst.
+    cbn [map]. rewrite !lincomb_cons. f_equal.
+    + unfold arg_ok in Hm. destruct (has_par ep cv) eqn:Hc.
+      * rewrite Hm. reflexivity.
+      * assert (x = 0) as ->.
+        { specialize (Hz cv (or_introl eq_refl) Hc). unfold aget in Hz. simpl in Hz.
+          rewrite Z.eqb_refl in Hz. exact Hz. }
+        lia.
+    + apply IH; auto.
+      intros cv' Hin Hc. specialize (Hz cv' (or_intror Hin) Hc). unfold aget in *. simpl in Hz.
+      destruct (Z.eqb_spec cv cv'); [subst; contradiction|exact Hz].
 Qed.
 
 (* the key computation: substituting  child variable := product of its parent
    variables  turns the child's monomial into the monomial of the re-keyed entry *)
 Lemma child_mono ppars pars k ms n c u :
   child_wf ppars pars k -> NoDup ppars -> ~ In 0 ppars ->
-  Forall2 (fun (m : mono) cv => forall u, m u = par_count (snd k) cv u) ms (pars (fst k)) ->
+  Forall2 (arg_ok (snd k)) ms (pars (fst k)) ->
   length c = length (pars (fst k)) ->
+  (forall cv, In cv (pars (fst k)) -> has_par (snd k) cv = false -> aget (combine (pars (fst k)) c) cv = 0) ->
   lincomb (n :: c) (mvar 0 :: ms) u = fm ppars (n :: rk ppars (pars (fst k)) (snd k) c) u.
 Proof.
-  intros W NDp H0p HF Hlen. destruct k as [cl ep]. simpl in *.
+  intros W NDp H0p HF Hlen Hz. destruct k as [cl ep]. simpl in *.
   rewrite fm_value by auto. rewrite lincomb_cons.
-  assert (lincomb c ms u = lincomb c (map (fun cv => (fun w => par_count ep cv w) : mono) (pars cl)) u) as E1.
-  { apply lincomb_ext. clear Hlen. induction HF as [|m cv ms' l' Hm _ IH]; simpl; constructor; auto. }
-  rewrite E1, lincomb_map_ind. clear E1.
+  rewrite (lincomb_args ep u (pars cl) c ms (cw_nodup _ _ _ W) Hlen HF Hz), lincomb_map_ind.
   unfold rk. rewrite aget_combine_map.
   unfold mvar. destruct (Z.eqb_spec u 0) as [->|Hu0].
   - (* x: no parent variable is x *)
@@ -334,6 +370,8 @@ Proof.
            snd (S (fst k)) m).
   intros t Ht u _. destruct (cw_tab _ _ _ W t Ht) as [n [c [Et Hl]]]. rewrite Et. cbn [hd tl].
   apply child_mono; auto.
+  intros cv Hin Hc. destruct (cw_cover _ _ _ W cv Hin) as [Hc'|Hz]; [congruence|].
+  exact (Hz t n c Ht Et).
 Qed.
 
 End Subst.
